@@ -1876,7 +1876,10 @@ def reachable_set(ctx, entries: List[str]) -> Set[str]:
 
 
 def check_escape(ctx, rule: str, entries: List[str], allowed: Set[str], esc: Optional[Escape] = None) -> Escape:
-    esc = esc or Escape(ctx)
+    if esc is None:
+        from .effects_cm import cm_escape
+
+        esc = cm_escape(ctx)
     comprehension_patch(esc)
     if esc.reach is None:
         esc.reach = reachable_set(ctx, entries)
